@@ -1920,6 +1920,11 @@ func (p *Parser) hasValidIdent() bool {
 
 func (p *Parser) getAssign(needEqual bool) *Assign {
 	as := &Assign{}
+	if p.eqlOffs >= len(p.val) || (p.eqlOffs > 0 && p.val[p.eqlOffs] != '=') {
+		// A stale offset from an earlier literal; for example, the literal
+		// which follows an arithmetic expression cut short by [RecoverErrors].
+		p.eqlOffs = 0
+	}
 	if p.eqlOffs > 0 { // foo=bar
 		nameEnd := p.eqlOffs
 		if p.lang.in(langBashLike|LangMirBSDKorn|LangZsh) && p.val[p.eqlOffs-1] == '+' {
